@@ -105,6 +105,7 @@ def _detect_alleles(variants, var_progress, first, bam_read):
         int n = len(var_progress)
         int cigar_op                            # copy python vars here ...
         int length                              # ... for runtime optimization
+        bint block_continues = False            # does the current op continue an aligned block?
 
     # Skip variants that come before this region
     while j < n:
@@ -130,6 +131,7 @@ def _detect_alleles(variants, var_progress, first, bam_read):
         # MIDNSHPX= => 012345678. Skip for soft clipping/padding, etc.
         if cigar_op == 3:  # N operator (reference skip)
             ref_pos += length
+            block_continues = False
             continue
         elif cigar_op == 4:  # S operator (soft clipping)
             query_pos += length
@@ -156,6 +158,12 @@ def _detect_alleles(variants, var_progress, first, bam_read):
             # with old implementation. Actually, it would be correct to assume ref allele here,
             # if the preivous base matched. This seems to be an artifact of normalized variants.
             if cigar_op == 2 and ref_len == 0:
+                j += 1
+                continue
+            # Special case: An insertion variant located directly in front of the first aligned
+            # base of the read (or of the first base after a reference skip) is not covered:
+            # the base before the insertion point is not part of the alignment.
+            if ref_len == 0 and var_pos == ref_pos and not block_continues and cigar_op != 1:
                 j += 1
                 continue
 
@@ -188,6 +196,7 @@ def _detect_alleles(variants, var_progress, first, bam_read):
             handler(variant, var_entry, bam_read, ref_pos, query_pos, length)
         ref_pos = ref_end
         query_pos = query_end
+        block_continues = True
 
         # Yield resolved variants from left, pop inresolvable variants
         while vqueue:
